@@ -125,7 +125,7 @@ Section WithResponses.
     - assert (E : do_write c s d = body_write s d) by (unfold do_write; rewrite Hs; reflexivity).
       rewrite E. unfold body_write. destruct (s_mute s) eqn:Em.
       + destruct (IH s Hs) as (A & B & C & D). rewrite Em in C, D. repeat split; assumption.
-      + set (s1 := mkSt _ _ _ _ _ _ _ _).
+      + set (s1 := mkSt _ _ _ _ _ _ _ _ _).
         destruct (IH s1 Hs) as (A & B & C & D). cbn [s1 s_chunked s_mute s_out] in *.
         repeat split; auto. rewrite D.
         destruct (s_chunked s); cbn [flat_map concat]; rewrite <- !app_assoc; reflexivity.
@@ -147,7 +147,7 @@ Section WithResponses.
   Proof.
     intro Hs.
     set (s1 := mkSt (s_code s) (s_reason s) (final_table c s) (s_cookies s) true (chunked_mode c s)
-                    (muted c s) (s_out s ++ head_of c s)).
+                    (muted c s) (s_out s ++ head_of c s) (conn_says_close (final_table c s))).
     assert (Hstart : forall d, do_write c s d = body_write s1 d).
     { intro d. unfold do_write. rewrite Hs. reflexivity. }
     assert (Hfin : forall s2, s_started s2 = true -> s_chunked s2 = chunked_mode c s ->
